@@ -259,6 +259,14 @@ impl Stream for ScriptStream {
                 g.st[this.idx].yielding = false;
             } else {
                 g.counters.yield_polls += 1;
+                // A stream that answers Pending although it has items gives its turn away:
+                // for the overtaking bound it is ready "as of now", not as of when its items
+                // arrived (each cooperative yield legitimately lets every other ready stream
+                // go first once more).
+                let d = g.deliveries;
+                if g.st[this.idx].ready_since.is_some() {
+                    g.st[this.idx].ready_since = Some(d);
+                }
                 drop(g);
                 cx.waker().wake_by_ref();
                 return Poll::Pending;
